@@ -3,7 +3,8 @@
 (runs in /venv with PYTHONPATH=<repo>/src).
 
 stdin : {"groups": [ {"id", "wavelength": OPERAND, "incident_beam": OPERAND(vector3), "scattered_beam": OPERAND(vector3),
-                      "R": ROT, "U": ROT, "B": {"values": [9 hex floats row-major], "unit": str},
+                      "R": ROT, "U": ROT, "B": {"values": [9 hex floats row-major], "unit": str}
+                                           or {"values": [[9 hex floats], ...], "unit": str, "dim": "p"} (one B per pixel),
                       "Q": optional OPERAND(vector3) used for hkl instead of the computed Q vector} ]}
   OPERAND as in kernels_impl.py;  ROT = {"kind": "quat"|"matrix", "values": [[4 or 9 hex floats], ...], "dim": null|"p"}
   optional per group  "graph": {"start": "wavelength"|"tof", "via": "specific"|"elastic",
@@ -130,7 +131,9 @@ def main():
             bf = build_operand(g['scattered_beam'])
             R = build_rot(g['R'])
             U = build_rot(g['U'])
-            B = build_rot({'kind': 'matrix', 'values': [g['B']['values']], 'dim': None, 'unit': g['B']['unit']})
+            bdim = g['B'].get('dim')       # one B (9 numbers), or one B per pixel (a list of 9 numbers each, dim 'p')
+            B = build_rot({'kind': 'matrix', 'values': g['B']['values'] if bdim else [g['B']['values']], 'dim': bdim,
+                           'unit': g['B']['unit']})
             Qin = build_operand(g['Q']) if g.get('Q') else None
         except Exception as ex:
             res['build_error'] = f'{type(ex).__name__}: {ex}'
